@@ -446,6 +446,8 @@ class Executor:
                 else: t = z3.BoolVal(False)
             elif a.sort.startswith('enum:') and b.sort == a.sort: t = a.t == b.t
             elif a.sort.startswith('opt:enum:') and b.sort == a.sort[4:]: t = z3.And(z3.Not(a.t[0]), a.t[1].t == b.t)
+            elif 'opaque' in (a.sort, b.sort):
+                q = p.inexact(); yield q, Bool(z3.FreshConst(z3.BoolSort(), 'is')); return
             else: raise Unsupported(site + f' is {a.sort} {b.sort}')
             yield p, Bool(z3.Not(t) if neg else t); return
         if isinstance(op, (ast.In, ast.NotIn)):
